@@ -55,7 +55,7 @@ func regexpLiterals(p *core.Program, pkgRel string) map[string]string {
 
 // C04: non-rendered and non-reading content never leaks into the output.
 func C04(p *core.Program, r *core.Report) {
-	r.Explanation = "V1 (every source->output enumerator is gated): all decision paths of the converter's element visitor are enumerated with builder calls as events; any path that hands anything to the builder or lets the walk descend requires IsProbablyVisible(node) to have been decided true first; text reaches the builder only as real text nodes of the walked tree (never via TextContent); the dispatcher drops comments/doctypes; the visitor of GetOutputNodes (tables, captions, embeds) admits a descendant only if it is not script/style and probably visible (decision-list conformance). V2: wholesale copies in output code are reviewed. V3: IsProbablyVisible's decision list is the documented one (display none, hidden attribute, visibility hidden/collapse, aria-hidden=true), GetDisplayStyle lets an inline display override the tag default and maps script/style/meta/link to none, and the two regular expressions are the reviewed patterns. V4: the converter's switch sends every listed non-reading tag to a clause that returns false without StartNode. V3 also asks the two compiled pattern constants about fixed declarations (display/visibility in any position, with blanks around the colon, with !important; no other property). V5: InnerText does not descend into script/style (by tag, whatever their style says) nor into elements that are not probably visible and every text view is rendered through it (or is empty)."
+	r.Explanation = "V1 (every source->output enumerator is gated): all decision paths of the converter's element visitor are enumerated with builder calls as events; any path that hands anything to the builder or lets the walk descend requires IsProbablyVisible(node) to have been decided true first; text reaches the builder only as real text nodes of the walked tree (never via TextContent); the dispatcher drops comments/doctypes; the visitor of GetOutputNodes (tables, captions, embeds) admits a descendant only if it is not script/style and probably visible (decision-list conformance). V2: wholesale copies in output code are reviewed. V3: IsProbablyVisible's decision list is the documented one (display none, hidden attribute, visibility hidden/collapse, aria-hidden=true), GetDisplayStyle lets an inline display override the tag default and maps script/style/meta/link to none, and the two regular expressions are the reviewed patterns. V4: the converter's switch sends every listed non-reading tag to a clause that returns false without StartNode. V3 also asks the two compiled pattern constants about fixed declarations (display/visibility in any position, with blanks around the colon, with !important; no other property). V5: InnerText does not descend into script/style (by tag, whatever their style says) nor into elements that are not probably visible and every text view is rendered through it (or is empty). V1 also: the ancestor loop of the caption visibility check starts at the element itself. V6: no pass rewrites the clone before the visibility gate of the walk sees it, except the two reviewed removal passes (shared with C18-T7). V7: the foreign-content pass of C05-S4 re-attaches the children only of an xmp/plaintext that is itself probably visible; never-rendered kinds (noscript, iframe, noembed, noframes, script, style) are removed with their text."
 	r.NotCovered = "style sheets and computed CSS (the port only sees inline style and attributes: NEED-COMPUTE-CSS), what the two regular expressions match beyond their reviewed text, text inside embed placeholders (exempt by the property)."
 
 	// ---- V1 main walk: the visit callback of Convert (helpers expanded), whatever it is called
